@@ -9,6 +9,7 @@ TRUST = ('trusted: rustc MIR dump = compiled semantics; models of the external (
          'traversal model of swc_ecma_visit (validated on 81 fixtures + sampled witnesses against the native build); swc parser/resolver/printer outside; inputs above the stated bounds outside')
 CHECKS = {
  'C01': ('for every element skeleton within the bounds (tag forms incl. fully symbolic tag names, <=2/<=3 attributes incl. symbolic names and string values, spreads, on/nativeOn, options symbolic) Z3 shows on every path of the real visitor MIR that the emitted vnode type and the abstract value of the emitted props equal what the written attributes denote; witnesses are confirmed on the native build before being reported', '4 C01'),
+ 'C04': ('for every directive attribute within the bounds (fully symbolic v-/vX names of 3..6 (quick) or 3..8 (thorough) characters incl. _ suffixes, namespaced v-x:arg_mod with symbolic parts, all value shapes, element and component hosts, co-occurring attributes and directives) Z3 shows on every path of the real visitor MIR that exactly one runtime binding with the written name/value/argument/modifiers is emitted (v-html/v-text: the innerHTML/textContent prop) and that props, children and type equal those of the same element without the directive', '4 C04'),
  'C02': ('bounded symbolic execution of the real MIR of util::transform_text: for every JSX text of <=4 (quick) / <=6 (thorough) code points over the full Unicode alphabet, Z3 shows the cleaned text equals the JSX whitespace rule on every path; counterexamples are replayed on the native build before being reported', '4 C02'),
 }
 NA = {
